@@ -49,4 +49,13 @@ def containsKey (p : DNode) (key : Str) : Bool := (get p key).isSome
 /-- the content of a document: per paragraph its (name, value) list -/
 def docItems (root : DNode) : List (List (Str × Str)) := (paragraphs root).map items
 
+/-- `Paragraph::from_str` (lossless.rs:864-876): strict parse, then the first paragraph -/
+def paragraphFromStr (s : Str) : Except (List String) DNode :=
+  match readStrict s with
+  | .error e => .error e
+  | .ok t =>
+    match paragraphs t with
+    | [] => .error ["no paragraphs"]
+    | p :: _ => .ok p
+
 end Deb822Verif.Deb
